@@ -59,7 +59,7 @@ def unit_step_clock(twin=False):
                     U.discharge_eq_real(r, "%s[%d].cumulative_steps.elapsed==step" % (q.split("::")[-1], j), hy, new, kt)
                     U.discharge_eq_real(r, "%s[%d].cumulative_steps.start_unchanged" % (q.split("::")[-1], j), hy, start1, start0)
                 else:
-                    r.add("%s[%d].case_decided" % (q.split("::")[-1], j), FAILED, "z3", 0, repr(s.pc)[:200])
+                    r.add("%s[%d].case_decided" % (q.split("::")[-1], j), UNDECIDED, "z3", 0, repr(s.pc)[:200])
     r.add("reach.clock_updates", DISCHARGED if n >= 4 else UNDECIDED, "symex", 0, "%d paths" % n, kind="vacuity")
     # end of RUN_CELLS: TOTAL_TIME (= initial_total_time + rate_sim_time) carries over
     fn = A.find_function(RC, "Phreeqc::run_as_cells")
